@@ -549,7 +549,10 @@ func ruleLibMath(c *Ctx, r *R) {
 					okAll = false
 				}
 			}
-			r.check(okAll, name+":nan-guard", c.Pos(instrPos(mc)), "both operands tested with IsNaN first", fmt.Sprintf("math.%s lets an infinity win over NaN (math.%s(+Inf, NaN) = +Inf) but ES5 §15.8.2.11-12 requires NaN if any argument is NaN: an operand reaches the call without a dominating IsNaN test", lib, lib))
+			if !okAll && nanFlagged(fn, mc) {
+				okAll = true // every operand's IsNaN is accumulated in a flag and the computed result is returned only when the flag is false
+			}
+			r.check(okAll, name+":nan-guard", c.Pos(instrPos(mc)), "both operands tested with IsNaN first (or a NaN flag over all operands guards the result)", fmt.Sprintf("math.%s lets an infinity win over NaN (math.%s(+Inf, NaN) = +Inf) but ES5 §15.8.2.11-12 requires NaN if any argument is NaN: an operand reaches the call without a dominating IsNaN test", lib, lib))
 		}
 	}
 	// isNaN / isFinite: apply ToNumber (float64()) to the argument
@@ -619,6 +622,120 @@ func nanTested(fn *ssa.Function, a ssa.Value, use ssa.Instruction) bool {
 		}
 	}
 	return false
+}
+
+// nanFlagged: the other correct shape - every operand is tested with IsNaN into a flag (a boolean phi tree whose edges are
+// IsNaN calls, `true` assigned on the true side of an IsNaN test, an initial false, or other such phis), and every return
+// that does not return NaNValue() is on the false side of a dominating test of that flag.
+func nanFlagged(fn *ssa.Function, mc *ssa.Call) bool {
+	isNaNCall := func(v ssa.Value) ssa.Value {
+		if c, ok := v.(*ssa.Call); ok && c.Call.StaticCallee() != nil && c.Call.StaticCallee().Name() == "IsNaN" && c.Call.StaticCallee().Pkg != nil && c.Call.StaticCallee().Pkg.Pkg.Path() == "math" {
+			return c.Call.Args[0]
+		}
+		return nil
+	}
+	var collect func(f ssa.Value, seen map[ssa.Value]bool, out *[]ssa.Value) bool
+	collect = func(f ssa.Value, seen map[ssa.Value]bool, out *[]ssa.Value) bool {
+		if seen[f] {
+			return true
+		}
+		seen[f] = true
+		if x := isNaNCall(f); x != nil {
+			*out = append(*out, x)
+			return true
+		}
+		phi, ok := f.(*ssa.Phi)
+		if !ok {
+			return false
+		}
+		for i, e := range phi.Edges {
+			if k, ok := e.(*ssa.Const); ok {
+				if k.Value == nil || k.Value.Kind() != constant.Bool {
+					return false
+				}
+				if constant.BoolVal(k.Value) {
+					p := phi.Block().Preds[i]
+					if len(p.Preds) != 1 {
+						return false
+					}
+					q := p.Preds[0]
+					iff, ok := q.Instrs[len(q.Instrs)-1].(*ssa.If)
+					if !ok || q.Succs[0] != p {
+						return false
+					}
+					x := isNaNCall(iff.Cond)
+					if x == nil {
+						return false
+					}
+					*out = append(*out, x)
+				}
+				continue
+			}
+			if !collect(e, seen, out) {
+				return false
+			}
+		}
+		return true
+	}
+	// the flag guarding the returns
+	var tested []ssa.Value
+	guarded := 0
+	for _, b := range fn.Blocks {
+		ret, ok := b.Instrs[len(b.Instrs)-1].(*ssa.Return)
+		if !ok || len(ret.Results) != 1 {
+			continue
+		}
+		if c, ok := ret.Results[0].(*ssa.Call); ok && c.Call.StaticCallee() != nil && c.Call.StaticCallee().Name() == "NaNValue" {
+			continue
+		}
+		if !reaches(mc.Block(), b, map[*ssa.BasicBlock]bool{}) {
+			continue // a return not downstream of the library call (the zero / one argument arms)
+		}
+		found := false
+		for d := b.Idom(); d != nil; d = d.Idom() {
+			iff, ok := d.Instrs[len(d.Instrs)-1].(*ssa.If)
+			if !ok {
+				continue
+			}
+			var t []ssa.Value
+			if collect(iff.Cond, map[ssa.Value]bool{}, &t) && len(t) > 0 && d.Succs[1].Dominates(b) && len(d.Succs[1].Preds) == 1 {
+				tested = append(tested, t...)
+				found = true
+				break
+			}
+		}
+		if !found {
+			return false
+		}
+		guarded++
+	}
+	if guarded == 0 {
+		return false
+	}
+	isTested := func(v ssa.Value) bool {
+		for _, t := range tested {
+			if t == v || sameSSA(t, v, 0) {
+				return true
+			}
+		}
+		return false
+	}
+	for _, a := range mc.Call.Args {
+		if isTested(a) {
+			continue
+		}
+		phi, ok := a.(*ssa.Phi)
+		if !ok {
+			return false
+		}
+		for _, e := range phi.Edges {
+			if e == ssa.Value(mc) || isTested(e) {
+				continue
+			}
+			return false
+		}
+	}
+	return true
 }
 
 func nanTestedSimple(fn *ssa.Function, v ssa.Value) bool {
@@ -835,5 +952,149 @@ func ruleLibIndex(c *Ctx, r *R) {
 			}
 		}
 		r.check(roundTrip, "canonical:"+ssaFuncName(fn), c.Pos(fn.Pos()), "rejects names whose canonical rendering differs", fmt.Sprintf("%s accepts every spelling strconv.ParseInt accepts: a['01'] or a['+1'] is treated as a[1] (ES5 §15.4: only ToString(ToUint32(P)) == P is an index)", ssaFuncName(fn)))
+	}
+}
+
+func init() {
+	register(&Rule{ID: "ARGS-all-converted", Props: []string{"C13", "C05"}, Min: 4,
+		Doc: "P (must-pass-through): ES5 15.8.2 - every Math function applies ToNumber to each of its arguments, left to right, *and then* computes. ToNumber is observable (valueOf / toString of an object argument run, and may throw), so a result returned before the remaining arguments are converted is a visible deviation: `Math.atan2(NaN, {valueOf: f})` must call f. For every Math built-in: each conversion of a positional argument (call.Argument(k).float64()) lies on every path from entry to every return, and a loop over call.ArgumentList that converts its element is left only by exhausting the list (no return or break from its body)",
+		Run: ruleArgsAllConverted})
+}
+
+func ruleArgsAllConverted(c *Ctx, r *R) {
+	var float64Fn *ssa.Function
+	for _, fn := range c.AllSrcFuncs("") {
+		if ssaFuncName(fn) == "(Value).float64" {
+			float64Fn = fn
+		}
+	}
+	if float64Fn == nil {
+		r.undecided("unresolved:float64", "-", "UNRESOLVED: (Value).float64")
+		return
+	}
+	fromArgList := func(v ssa.Value) bool {
+		for d := 0; d < 6; d++ {
+			switch x := v.(type) {
+			case *ssa.Slice:
+				v = x.X
+			case *ssa.UnOp:
+				if isFieldAddr(x.X, "FunctionCall", "ArgumentList") {
+					return true
+				}
+				if fa, ok := x.X.(*ssa.FieldAddr); ok {
+					_ = fa
+				}
+				v = x.X
+			case *ssa.Field:
+				if st, ok := x.X.Type().Underlying().(*types.Struct); ok && st.Field(x.Field).Name() == "ArgumentList" {
+					return true
+				}
+				return false
+			case *ssa.IndexAddr:
+				v = x.X
+			default:
+				return false
+			}
+		}
+		return false
+	}
+	n := 0
+	for _, fn := range c.AllSrcFuncs("") {
+		if fn.Parent() != nil || !strings.HasPrefix(fn.Name(), "builtinMath") {
+			continue
+		}
+		var rets []*ssa.Return
+		for _, b := range fn.Blocks {
+			if ret, ok := b.Instrs[len(b.Instrs)-1].(*ssa.Return); ok {
+				rets = append(rets, ret)
+			}
+		}
+		ord := 0
+		for _, b := range fn.Blocks {
+			for _, ins := range b.Instrs {
+				call, ok := ins.(*ssa.Call)
+				if !ok || call.Call.StaticCallee() != float64Fn {
+					continue
+				}
+				// positional: receiver is the result of (FunctionCall).Argument(k)
+				recv := call.Call.Args[0]
+				if ac, ok := recv.(*ssa.Call); ok && ac.Call.StaticCallee() != nil && ac.Call.StaticCallee().Name() == "Argument" {
+					k, _ := constInt(ac.Call.Args[1])
+					n++
+					ord++
+					bad := ""
+					for _, ret := range rets {
+						if reachableWithout(fn, ret, func(i ssa.Instruction) bool { return i == ssa.Instruction(call) }) {
+							bad = c.Pos(ret.Pos())
+							break
+						}
+					}
+					key := fmt.Sprintf("%s:argument(%d)#%d", fn.Name(), k, ord)
+					r.check(bad == "", key, c.Pos(instrPos(call)), "converted on every path to every return",
+						fmt.Sprintf("%s can return (at %s) without having applied ToNumber to argument %d: 15.8.2 converts every argument before computing, and the conversion is observable (`Math.%s(NaN, {valueOf: function(){ called = true }})` must set called)", fn.Name(), bad, k, strings.ToLower(strings.TrimPrefix(fn.Name(), "builtinMath"))))
+				}
+			}
+		}
+		// loops over the argument list
+		for _, h := range fn.Blocks {
+			iff, ok := h.Instrs[len(h.Instrs)-1].(*ssa.If)
+			if !ok {
+				continue
+			}
+			bo, ok := iff.Cond.(*ssa.BinOp)
+			if !ok || bo.Op != token.LSS {
+				continue
+			}
+			lc, ok := bo.Y.(*ssa.Call)
+			if !ok {
+				continue
+			}
+			if bi, ok := lc.Call.Value.(*ssa.Builtin); !ok || bi.Name() != "len" || !fromArgList(lc.Call.Args[0]) {
+				continue
+			}
+			// is h a loop header? (reachable from its own body)
+			body, exit := h.Succs[0], h.Succs[1]
+			if !reaches(body, h, map[*ssa.BasicBlock]bool{}) {
+				continue
+			}
+			// does the body convert?
+			converts := false
+			inBody := map[*ssa.BasicBlock]bool{}
+			var mark func(b *ssa.BasicBlock)
+			mark = func(b *ssa.BasicBlock) {
+				if inBody[b] || b == h || b == exit {
+					return
+				}
+				inBody[b] = true
+				for _, s := range b.Succs {
+					mark(s)
+				}
+			}
+			mark(body)
+			for b := range inBody {
+				for _, ins := range b.Instrs {
+					if call, ok := ins.(*ssa.Call); ok && call.Call.StaticCallee() == float64Fn {
+						converts = true
+					}
+				}
+			}
+			if !converts {
+				continue
+			}
+			n++
+			early := ""
+			for b := range inBody {
+				// a block of the body region that cannot get back to the header left the loop early
+				if _, isRet := b.Instrs[len(b.Instrs)-1].(*ssa.Return); isRet {
+					early = c.Pos(b.Instrs[len(b.Instrs)-1].Pos())
+				}
+			}
+			key := fmt.Sprintf("%s:argument-loop", fn.Name())
+			r.check(early == "", key, c.Pos(instrPos(iff)), "the loop over the argument list converts every element and is left only at its end",
+				fmt.Sprintf("%s returns from inside its loop over the argument list (at %s): the arguments after that one are never converted, so their valueOf / toString do not run (`Math.%s(NaN, {valueOf: function(){ called = true }})`)", fn.Name(), early, strings.ToLower(strings.TrimPrefix(fn.Name(), "builtinMath"))))
+		}
+	}
+	if n == 0 {
+		r.undecided("unresolved:sites", "-", "UNRESOLVED: no argument conversion found in the Math built-ins")
 	}
 }
